@@ -8,3 +8,5 @@ import Generated.RunCommon
 import Generated.DistSrcRun
 import Generated.SparseSrc
 import Generated.SparseSrcRun
+import Generated.LayoutSrc
+import Generated.LayoutSrcRun
